@@ -66,6 +66,21 @@ WORKSPACES = {
             "submodule (sm) ssm\n  implicit none\ncontains\n  module procedure ms\n    a = 3\n  end procedure ms\nend submodule ssm\n",
         ],
     },
+    # an EXTENDS chain of three types in three files: only the top file changes; the bottom type must follow although
+    # the file in between is never parsed again
+    "W5_chain3": {
+        "base.f90": [
+            "module base_m\n  implicit none\n  type :: base_t\n    integer :: old_w\n  end type base_t\nend module base_m\n",
+            "module base_m\n  implicit none\n  type :: base_t\n    real :: weight\n    integer :: tag\n  end type base_t\nend module base_m\n",
+        ],
+        "mid.f90": [
+            "module mid_m\n  use base_m\n  implicit none\n  type, extends(base_t) :: mid_t\n    integer :: mid_c\n  end type mid_t\nend module mid_m\n",
+        ],
+        "leaf.f90": [
+            "module leaf_m\n  use mid_m\n  implicit none\n  type, extends(mid_t) :: leaf_t\n    integer :: leaf_c\n  end type leaf_t\ncontains\n"
+            "  subroutine luse(x)\n    type(leaf_t) :: x\n    x%old_w = 1\n    x%weight = 2.0\n    x%tag = x%mid_c + x%leaf_c\n  end subroutine luse\nend module leaf_m\n",
+        ],
+    },
     "W4_preproc": {
         "pp.F90": [
             "program pp\n#define LOCAL_PP_ONLY 1\n#ifdef LOCAL_PP_ONLY\n  integer :: seen_local\n#endif\n#include \"hh.h\"\n#ifdef FROM_HH\n  integer :: seen_hh\n#endif\n  include 'decl.f90'\n  from_decl = 1\nend program pp\n",
@@ -82,7 +97,7 @@ WORKSPACES = {
         ],
     },
 }
-QUERY = {"W1_types": ("u.f90", 4, 4), "W2_procs": ("b.f90", 9, 10), "W3_inherit": ("c.f90", 10, 9), "W4_preproc": ("pp.F90", 10, 4)}
+QUERY = {"W5_chain3": ("leaf.f90", 9, 6), "W1_types": ("u.f90", 4, 4), "W2_procs": ("b.f90", 9, 10), "W3_inherit": ("c.f90", 10, 9), "W4_preproc": ("pp.F90", 10, 4)}
 
 
 def single_line_edit(a: str, b: str):
